@@ -32,6 +32,7 @@ macro_rules! fam {
         pub struct $name {
             $( $(#[scylla($($fattr)*)])* pub $f: $t, )*
         }
+        #[allow(unused_mut, unused_variables)]
         impl FieldTy for $name {
             fn cell() -> Option<(cqlref::binder::Kind, bool)> { None }
             fn struct_leaves() -> Vec<Leaf> {
@@ -111,6 +112,14 @@ fam!(row_both R14 [] { zed: i32, mid: i32, alpha: i32 });
 // names crossed by rename between two same-typed fields: binding by Rust name is a silently swapped value
 fam!(value_both V35 [] { #[scylla(rename = "b")] a: i32, #[scylla(rename = "a")] b: i32, c: String });
 fam!(row_both R15 [] { #[scylla(rename = "b")] a: i32, #[scylla(rename = "a")] b: i32, c: String });
+// degenerate sizes (0, 1, 2 fields): off-by-one territory of the counters and cursors
+fam!(value_both V36 [] { a: i32 });
+fam!(value_both V37 [flavor = "enforce_order"] { #[scylla(allow_missing)] a: Option<i32>, #[scylla(allow_missing)] b: i64 });
+fam!(value_both V38 [] {});
+fam!(value_both V39 [flavor = "enforce_order", skip_name_checks] { a: String, #[scylla(allow_missing)] b: Option<i32> });
+fam!(row_both R16 [] {});
+fam!(row_both R17 [] { a: Option<String> });
+fam!(row_both R32 [flavor = "enforce_order"] { a: Option<String>, b: i32 });
 // single-derive structs (attribute sets that only one of the two value macros documents)
 fam!(value_ser V13 [] { a: i32, b: Option<String>, c: i64 });
 fam!(value_de V14 [] {
@@ -203,6 +212,13 @@ pub fn family() -> Vec<Entry> {
         V18::entry(),
         V19::entry(),
         V35::entry(),
+        V36::entry(),
+        V37::entry(),
+        V38::entry(),
+        V39::entry(),
+        R16::entry(),
+        R17::entry(),
+        R32::entry(),
         R15::entry(),
         R14::entry(),
         V34::entry(),
